@@ -213,7 +213,7 @@ class ConfineStream(Stream):
                          "internal/zzverif/vh/vh.go": "vh/vh.go"}}
     testname = "TestVerifC12Confine"
     rule = ("real Core on the recording physical layer; per case one of three namespace trees created through sys/namespaces "
-            "(n1,n2,n1/c | n1,n1/c,sn(own shamir seal),sn/c | n1,n10,n1/n1,n2), the same backend type mounted at the same path in "
+            "(n1,n2,n1/c | n1,n1/c,sn(own shamir seal),sn/c | n1,n10,n1/n1,n2 | t,t/t,t/t/t | n1,out(own seal),out/in(own seal),out/in/x,out/y with random seal/unseal(own shares) of out and out/in in all orders), the same backend type mounted at the same path in "
             "every namespace plus nested paths, per namespace 1-2 policy tokens and a root-policy token, half the cores with "
             "UnsafeRelativePaths; 140 (220 thorough) requests per case: every token against every namespace addressed through "
             "path / header / context / mixes / hostile headers, mounts incl. non-existent and look-alike paths, traversal in the "
@@ -240,8 +240,14 @@ class ConfineStream(Stream):
                 continue
             if f[0] == "ns":
                 nss.append(unhex(f[1])); sealable[unhex(f[1])] = f[2] == "1"; sealed[unhex(f[1])] = f[2] == "1"
-            elif f[0] == "sealns":
-                sealed[unhex(f[1])] = f[2] == "1"
+            elif f[0] == "sealns" and core == "ok":
+                # a seal covers every own-seal namespace at or below; an unseal (own shares) only the namespace itself
+                if f[2] == "1":
+                    for x in nss:
+                        if sealable.get(x) and x.startswith(unhex(f[1])):
+                            sealed[x] = True
+                else:
+                    sealed[unhex(f[1])] = False
             elif f[0] == "token":
                 toks[f[1]] = (unhex(f[2]), f[3])
             elif f[0] == "mount":
@@ -259,8 +265,8 @@ class ConfineStream(Stream):
             full = (b"" if ctx in ("none", "-") else unhex(ctx)) + (b"" if hdr == b"root/" and ctx in ("none", "-") else hdr) + path
             rns = resolve_ns(nss, sealable, sealed, full)
             def is_sealed(n):
-                cands = [x for x in nss if sealable.get(x) and n.startswith(x)]
-                return bool(cands) and sealed[max(cands, key=len)]
+                # some namespace at or above n has an own seal whose shares were not supplied since it was last covered by a seal
+                return any(sealable.get(x) and sealed.get(x) and n.startswith(x) for x in nss)
             reached = cls.startswith("ok")
             for t in touches:
                 tgt, rest = t.split(":", 1)
@@ -290,6 +296,10 @@ class ConfineStream(Stream):
             for t in touches:
                 tgt = t.split(":", 1)[0]
                 sns = nss[int(tgt[1:])] if tgt.startswith("C") else mount_ns.get(tgt[1:])
+                if sns is not None and is_sealed(sns):
+                    bad.append({"what": "storage of a mount of namespace %r touched (%s) although a namespace at or above it is sealed "
+                                        "(its own key shares were not supplied since the last seal covering it)" % (sns, t),
+                                "signature": "sealed-namespace-storage-touched"})
                 if reached and sns is not None and not sns.startswith(tns):
                     bad.append({"what": "token of namespace %r was served by a mount of namespace %r (%s)" % (tns, sns, core),
                                 "signature": "token-authorised-outside-namespace"})
@@ -332,13 +342,13 @@ class C12(PropCheck):
                   "share no key); (3) the request path of the core: request_confined (every storage key a request touches lies in "
                   "the one mount routed for it, free of dot segments), cubbyhole_private (keyed by the requesting token's cubbyhole "
                   "id, over all request histories), policy_scoped_to_namespace + token_authorises_only_own_namespace_and_below, "
-                  "sealed_namespace_unreachable. The full statement 'the serving mount belongs to the namespace the request was "
+                  "sealed_namespace_unreachable, and for nested separately sealed namespaces over all histories: seal_covers_descendant_barriers, unseal_parent_does_not_unseal_child, sealed_namespace_unreachable_histories. The full statement 'the serving mount belongs to the namespace the request was "
                   "resolved to' is kept as request_in_resolved_namespace_full and REFUTED by two witnesses (finding F13). All three "
                   "models are tied to the Go code by differential streams on every run and the confinement predicate is evaluated "
                   "directly on the physical keys the real core touches per request")
     level_note = ("trusted: Lean kernel; hand-written models and their differential ties (harness + driver + python predicates); "
                   "the confine model covers the harness's backend and the built-in cubbyhole, policies with uniform capabilities "
-                  "(rule priority is C03's subject), one level of sealable namespaces; group-policy application modes other than the "
+                  "(rule priority is C03's subject); group-policy application modes other than the "
                   "default, identity-derived policies and external plugin backends are not generated; remount is exercised through "
                   "Core.remountSecretsEngine, never for mounts holding keys with empty path segments (Core.moveStorage does not "
                   "terminate on those: reported, not a C12 matter)")
